@@ -250,7 +250,7 @@ def run(ck, prog, ctx):
     n_l = 0
     for db in prog.find(r"^parser::binary::term::from_bytes_v2$"):
         n_l += layout.check_field_independence(ck, "LAYOUT", prog, db, r"HpoTermInternal", db.name)
-    ck.floor("LAYOUT", "optional field stores in the term decoder", n_l, 2)
+    ck.floor("LAYOUT", "optional field stores in the term decoder", n_l, 1)
     for db in prog.find(r"^parser::binary::term::from_bytes_v1$"):
         layout.check_fixed_part_validation(ck, "LAYOUT", prog, db, "term-v1")
     for db in prog.find(r"^parser::binary::term::from_bytes_v2$"):
